@@ -22,7 +22,7 @@ RULE = ('cases: two tables of 0-6 rows with 0-3 key columns and 0-3 other column
         'per column from a small pool {None, 0, 1, 1.0, 2, 1.5, NaN objects of 3 identities, "a", "b", "ab", two datetimes} so that duplicate keys '
         'occur on both sides; lcols/rcols spelled None / name / list / callable (id, isnone, coalesce, const; differently named columns on the two '
         'sides); modes None,"l","r","left","right",0,1 and two callables; x*y and x/y; kinds join, xor, both (join+xor of the same operands, '
-        'x carrying a unique id column); an exhaustive stream of all pairs of one-key tables with <= 2 rows over {None,1,1.0,2,"a"}; a malformed '
+        'x carrying a unique id column); a stream of all-numeric key columns with 1-2 distinct NaN objects among duplicated finite values on both sides; a stream of many-to-many keys x shared non-key columns with pairwise distinct cells x modes r/1/callables; an exhaustive stream of all pairs of one-key tables with <= 2 rows over {None,1,1.0,2,"a"}; a malformed '
         'stream (length mismatch, callable on both sides, missing column). Compared inside Coq: status, sorted column names and the multiset of '
         'rows (numbers in join key columns up to ==, everything else exact incl. int/float), errors by class, Timeout as an outcome. The oracle '
         'recomputes the join / anti-join by nested loops over the rows from the property text, checks termination and that every operand cell is '
@@ -463,6 +463,54 @@ def rand_case(rng, stream, kind=None):
         case['via'] = 'op'; case['mode'] = 'none' if kind == 'join' else 'default'
     return case
 
+FINITE = [['i', 0], ['i', 1], ['f', 2], ['i', 2], ['f', 3], ['i', 3], ['i', -1], ['f', 5]]
+def nan_numeric_case(rng):
+    """all-numeric key column holding 1-2 NaN objects among several distinct finite values on BOTH sides, duplicates on both
+    sides (many-to-many), NaN at any position: exercises the placement of NaN by sort() and the NaN ~ NaN match"""
+    fin = rng.sample(FINITE, rng.choice([3, 4, 5]))
+    def side(ids, n):
+        k = [['nan', i] for i in rng.sample(ids, rng.choice([1, 2]))]
+        vals = k + [rng.choice(fin) for _ in range(n - len(k))]
+        if rng.random() < 0.5: vals += [rng.choice(k)]                 # the same NaN object twice
+        rng.shuffle(vals)
+        return vals
+    xk = side([1, 2], rng.choice([4, 5, 6])); yk = side(rng.choice([[1, 2], [3, 4], [2, 3]]), rng.choice([4, 5, 6]))
+    x = [['a', xk]]; y = [['a', yk]]
+    if rng.random() < 0.3:                                             # a second, finite, key column
+        x.append(['b', [rng.choice(fin[:2]) for _ in xk]]); y.append(['b', [rng.choice(fin[:2]) for _ in yk]])
+    if rng.random() < 0.6:
+        x.append(['v', [['i', 10 + i] for i in range(len(xk))]]); y.append(['v', [['i', 20 + i] for i in range(len(yk))]])
+    kind = rng.choice(['join', 'xor', 'both', 'both'])
+    if kind == 'both': x.append(['id', [['i', 100 + i] for i in range(len(xk))]])
+    keys = [['col', n] for n, _ in x if n in ('a', 'b')]
+    case = {'kind': kind, 'stream': 'nannum', 'x': x, 'y': y, 'via': 'method',
+            'lcols': keys[0] if len(keys) == 1 and rng.random() < 0.5 else ['list', keys], 'rcols': None}
+    if kind == 'join': case['mode'] = rng.choice(list(JMODES))
+    elif kind == 'xor': case['mode'] = rng.choice(list(XMODES))
+    return case
+
+def m2m_shared_case(rng):
+    """many-to-many keys x shared non-key columns with pairwise distinct cells x every mode (weighted to r / 1 / callables):
+    a mix-up of which left / right cell lands in which output row is visible"""
+    nk = rng.choice([1, 1, 2])
+    pool = rng.choice(['int', 'num', 'mixed', 'str', 'none'])
+    sub = rng.sample(POOLS[pool], 2)
+    nx = rng.choice([3, 4, 5, 6]); ny = rng.choice([3, 4, 5, 6])
+    x = [[k, [rng.choice(sub) for _ in range(nx)]] for k in ['a', 'b'][:nk]]
+    y = [[k, [rng.choice(sub) for _ in range(ny)]] for k in ['a', 'b'][:nk]]
+    for nm in ['v', 'w'][:rng.choice([1, 1, 2])]:
+        off = 10 if nm == 'v' else 50
+        xv = [['i', off + i] for i in range(nx)]; yv = [['i', off + 20 + j] for j in range(ny)]
+        if rng.random() < 0.3: xv[rng.randrange(nx)] = None                # lets coalesce pick the right cell
+        x.append([nm, xv]); y.append([nm, yv])
+    if rng.random() < 0.4: x.append(['d', [['i', 80 + i] for i in range(nx)]])
+    if rng.random() < 0.4: y.append(['e', [['i', 90 + j] for j in range(ny)]])
+    rng.shuffle(x); rng.shuffle(y)
+    keys = [['col', k] for k in ['a', 'b'][:nk]]
+    return {'kind': 'join', 'stream': 'm2m', 'x': x, 'y': y, 'via': 'method',
+            'lcols': keys[0] if nk == 1 and rng.random() < 0.5 else ['list', keys], 'rcols': rng.choice([None, ['list', keys]]),
+            'mode': rng.choice(['r', 'r', '1', '1', 'right', 'coalesce', 'coalesce', 'swap', 'swap', 'l', '0', 'none'])}
+
 def malformed(rng):
     c = rand_case(rng, 'bad', rng.choice(['join', 'xor']))
     r = rng.random()
@@ -498,6 +546,10 @@ def gen_cases(rng, tier):
         cases.append(rand_case(rng, 'rand'))
     for _ in range(60 if q else 400):
         cases.append(rand_case(rng, 'nan'))
+    for _ in range(300 if q else 3000):
+        cases.append(nan_numeric_case(rng))
+    for _ in range(400 if q else 4000):
+        cases.append(m2m_shared_case(rng))
     for _ in range(120 if q else 1500):
         cases.append(malformed(rng))
     ex = exhaustive_small()
